@@ -374,15 +374,26 @@ def host_traces(ctx, rep, n_traces, host_patch=None):
                             e.update({"snt": [], "pend_acl": 0, "pend_le": 0})
                             events.append(e)
                 elif r < 0.85:
-                    i = rng.choice(sorted(handles))
-                    n = rng.choice([0, 1, 1, 1, 2, 2, 3, 4])
-                    unknown = rng.random() < 0.1
-                    h = 0x0EEE if unknown else handles[i]
-                    ev = hci.HCI_Number_Of_Completed_Packets_Event(connection_handles=[h], num_completed_packets=[n])
+                    # one Number Of Completed Packets event may report several handles, known or not
+                    entries = []
+                    for _k in range(rng.choice([1, 1, 2, 3])):
+                        i = rng.choice(sorted(handles))
+                        n = rng.choice([0, 1, 1, 1, 2, 2, 3, 4])
+                        unknown = rng.random() < 0.25
+                        entries.append((i, n, unknown))
+                    ev = hci.HCI_Number_Of_Completed_Packets_Event(
+                        connection_handles=[(0x0EEE if u else handles[i]) for (i, n, u) in entries],
+                        num_completed_packets=[n for (i, n, u) in entries])
                     host.on_packet(bytes(ev))
                     await asyncio.sleep(0.01)
-                    # a completion for a closed connection is a completion for an unknown handle
-                    snap({"e": "ncpu" if (unknown or i not in alive) else "ncp", "c": i, "n": n, "obs": True})
+                    for k, (i, n, unknown) in enumerate(entries):
+                        # a completion for a closed connection is a completion for an unknown handle
+                        e = {"e": "ncpu" if (unknown or i not in alive) else "ncp", "c": i, "n": n, "obs": k == len(entries) - 1}
+                        if e["obs"]:
+                            snap(e)
+                        else:
+                            e.update({"snt": [], "pend_acl": 0, "pend_le": 0})
+                            events.append(e)
                 elif alive:
                     i = rng.choice(sorted(alive))
                     ev = hci.HCI_Disconnection_Complete_Event(status=0, connection_handle=handles[i], reason=0x13)
